@@ -79,6 +79,11 @@ def rdf_ineligible(d):
                     pass
                 else:
                     return "value-kind-" + type(v).__name__
+            if not r.is_relation():
+                for a, v in extras:
+                    if a.uri == TYPE and isinstance(v, QualifiedName) and v.uri in PROV_CLASS_URIS:
+                        # "x a prov:Entity, prov:Agent" is how RDF states two records
+                        return "element-typed-with-prov-record-kind"
             if r.is_relation():
                 if len(fu) < 2 or fu[0] not in formals or fu[1] not in formals:
                     return "relation-without-first-two-arguments"
